@@ -451,6 +451,15 @@ func (v *verifSession) press(tok string, bytes []byte) (panicked bool, what stri
 	return
 }
 
+/* every connection made while browsing, for the request monitor (C04) */
+func verifEmitConns(out *verifkit.Trace, w *verifWorld, mark *int) {
+	w.sim.Quiesce(time.Second)
+	for _, ev := range w.sim.PlainConnEvents(*mark, func(*verifsim.ConnLog) string { return verifsim.AcceptActivity }) {
+		out.Emit(ev)
+	}
+	*mark = w.sim.ConnCount()
+}
+
 func verifSetup(t *testing.T) (*verifWorld, *verifkit.Trace) {
 	sim := verifsim.Get()
 	jtp.VerifSetTimeout(3 * time.Second)
@@ -482,6 +491,7 @@ func TestVerifKeys(t *testing.T) {
 	if in.Every < 1 {
 		in.Every = 1
 	}
+	connMark := w.sim.ConnCount()
 	sid := 0
 	for _, toks := range in.Sessions {
 		sid++
@@ -526,6 +536,7 @@ func TestVerifKeys(t *testing.T) {
 			}
 		}
 		v.flushFrames()
+		verifEmitConns(out, w, &connMark)
 	}
 	/* wild sessions: arbitrary bytes, long numbers, commands with garbage */
 	alphabet := []byte("jkghl carobp.:0123456789\r\x1b\x7fzZ/@ ~\x00\xff\x80\t")
@@ -566,6 +577,7 @@ func TestVerifKeys(t *testing.T) {
 		}
 		v.hookCalls()
 		v.flushFrames()
+		verifEmitConns(out, w, &connMark)
 		out.Emit(verifkit.M{"ev": "wild", "sid": sid, "start": start, "keys": verifkit.Clip(fmt.Sprintf("%q", keys), 300), "done": done, "panic": panicked, "wedged": wedged, "what": what,
 			"frames": atomic.LoadInt64(&v.frames), "unheld": atomic.LoadInt64(&v.unheld), "overlap": atomic.LoadInt64(&v.overlap)})
 	}
